@@ -905,7 +905,10 @@ def run_interleaving(case, prefix):
         w.connect()
         w.dispatchers[0].fire_connected()
         while True:
+            had = len(w.server_out[0]) > 0
             sc.wait_until(lambda: len(w.server_out[0]) > 0, "server bytes")
+            if had:
+                sc.env_point("next socket event")     # back in select() between two socket events
             w.deliver(0, len(w.server_out[0]))
 
     sc.run_phase([("net", net)], timeout=900.0)
